@@ -4,6 +4,7 @@ R20.1  string-shape abstract interpretation of every NameSanitizer name function
        non-empty, starts with an identifier-start character, contains only identifier characters, and is not a keyword
 R20.5  parameter names stored for the generators are fixed points of the sanitiser the generators re-apply (no suffix glued on after sanitising)
 R20.9  no named schema is filtered out between class / module de-collision and emission (none dropped)                        [= R1.8, file filter]
+R20.10 names made up for inline schemas are tested against the declared schema names (a made-up and a declared schema are never merged)   [= R2.17]
 R20.8  the sanitised key a schema is registered under never shadows another declared schema's name (both declarations survive, in either order)  [= R2.14]
 R20.7  schema references are resolved by their exact name, never by a sanitised / normalised key (names that sanitise alike stay distinct)  [= R2.10]
 R20.6  the tag grouping key is at least as coarse as the module / class / attribute names derived from a tag (tags have no de-dup step)     [= R7.7]
@@ -102,6 +103,10 @@ def run(repo: Repo, rep: Report, tier: str) -> None:
     from rules._reuse import _Filter as _F209
 
     _models_emitter_rules(repo, _F209(rep, {"R1.8": "R20.9"}, only=lambda subj: "file filter" in subj))
+    # R20.10: a name made up for an inline schema never equals a declared schema's name (the two would be merged)                 [= R2.17]
+    from rules.c02 import rule_invented_names_avoid_declared
+
+    rule_invented_names_avoid_declared(repo, rep, "R20.10")
     # ---------------------------------------------------------------- R20.3 validated returns
     eg = repo.module("visit.model.enum_generator").classes.get("EnumGenerator")
     if eg is None:
